@@ -11,6 +11,7 @@ TRUSTED_COMMON = [
 LINES_PER_OP = {
     "DbDriver": lambda op: 1 if op.get("op") in ("snap", "states") else 2,
     "SchedDriver": lambda op: 1,
+    "KvsmDriver": lambda op: 1,
 }
 
 
@@ -54,6 +55,13 @@ CHECKS = {
         "rule": "kv.KV of the real package: (1) pairs over the length grid {0,1,2,127,128,129,16383,16384,16385,70000}^2 with random byte content, (2) EVERY byte string over the alphabet {00,01,02,7f,80,ff} up to the given depth decoded into a non-empty prior object (exhaustive), (3) random pairs incl. empty key/value, each with three mutated encodings (truncated, bit flipped, suffix appended, over-long varint inserted), (4) encodings of exactly ColferSizeMax-1 and ColferSizeMax bytes; non-trivial = encode cases (each also decoded back, decoded with a suffix and length-checked on the implementation)",
         "assumptions": ["Go strings hold arbitrary bytes; copy/len as specified"],
         "trusted": ["16 MiB boundary case is run on the real code only (the model proves the round trip under the exact guard len < ColferSizeMax)"],
+    },
+    "C15": {
+        "lean": ["DrummerVerif.Props.C15"],
+        "streams": [{"cmd": "kvsm", "driver": "KvsmDriver", "sections": None, "eval_re": r"^case:", "timeout": 1500,
+                     "args": {"quick": ["-n", "25"], "thorough": ["-n", "400"]}}],
+        "rule": "the three real test state machines (KVTest, ConcurrentKVTest, DiskKVTest on vfs.NewStrictMem), two replicas per sequence: batches of 1..8 updates over key/value alphabets incl. the empty string, multi-byte UTF-8, JSON-special characters and (on-disk machine) binary strings, applied to both replicas; replica 1 additionally gets lookups / Sync / PrepareSnapshot / SaveSnapshot / Close+Open, and is replaced at random points by a fresh replica restored from replica 0's snapshot; after every step every key is looked up on both replicas and both hashes are taken (compared with the model as equality classes); evaluations = protocol operations; non-trivial = sequences",
+        "assumptions": ["md5 collisions ignored", "pebble: a synced batch is atomic and durable (C16 covers crashes)", "a user key equal to the on-disk machine's applied-index key is outside the model"],
     },
     "C06": {
         "lean": ["DrummerVerif.Props.C06"],
